@@ -161,7 +161,7 @@ impl Template {
                                 w.expr_stmt(|w| {
                                     write!(
                                         w,
-                                        "var {}=D({},(require,exports,module)=>{{{}}})()",
+                                        "var {}=D({},(require,exports,module)=>{{{}\n}})()",
                                         ident,
                                         gen_lit_str(&format!("{}#{}", &self.path, module_name.name)),
                                         content
